@@ -72,6 +72,7 @@ def run_cli(
     if audit:
         paths.insert(0, str(MONITOR_DIR))
         env["RPV_AUDIT_LOG"] = audit_log
+        env["RPV_PACKAGE_ROOT"] = os.path.join(os.path.realpath(rp2_src()), "rp2") + os.sep
     env["PYTHONPATH"] = os.pathsep.join(paths)
     env["PYTHONDONTWRITEBYTECODE"] = "1"
     env["PYTHONHASHSEED"] = hashseed
